@@ -643,7 +643,15 @@ fn collect_ranges(
     }
 }
 
-/// line lengths measured in the most permissive unit (bytes >= UTF-16 units >= chars)
+/// Length of a line in the unit the protocol defines for `character`: UTF-16 code units. (Until wave 13 this was the
+/// most permissive unit, bytes, "so that a unit mismatch cannot raise a false alarm" - which also hid every range that
+/// ends one or two columns past a line containing a multi-byte character. A position beyond the UTF-16 length of its
+/// line is outside the document by the protocol's own definition, whatever unit the server counted in; the server
+/// counts characters, which are never more than UTF-16 units.)
+fn line_units(l: &str) -> u64 {
+    l.encode_utf16().count() as u64
+}
+
 fn range_inside(text: &str, r: (u64, u64, u64, u64)) -> Result<(), String> {
     let lines: Vec<&str> = text.split('\n').collect();
     let (sl, sc, el, ec) = r;
@@ -658,7 +666,7 @@ fn range_inside(text: &str, r: (u64, u64, u64, u64)) -> Result<(), String> {
             }
             return Err(format!("{} line {} >= line count {}", what, l, lines.len()));
         }
-        let len = lines[l as usize].len() as u64;
+        let len = line_units(lines[l as usize]);
         if c > len {
             return Err(format!("{} character {} > line length {}", what, c, len));
         }
@@ -711,7 +719,7 @@ fn check_tokens(text: &str, data: &Value) -> Result<usize, String> {
                 lines.len()
             ));
         }
-        let ll = lines[line as usize].len() as u64;
+        let ll = line_units(lines[line as usize]);
         if start + len > ll {
             return Err(format!(
                 "token {} ends at {} > line length {}",
@@ -1130,6 +1138,34 @@ fn execute_inner(h: &History, seed_checks: usize, stats: &mut RunStats) -> Optio
         if request.is_none() && dg != last_digest {
             stats.digest_changes += 1;
             last_digest = dg;
+        }
+        // well-formedness of what was just published: every diagnostic range lies inside the document it is about
+        {
+            let touched: BTreeSet<&String> = long.publish_log[publish_mark..].iter().map(|(u, _)| u).collect();
+            for u in touched {
+                let text = match world.text_of_uri(u) {
+                    Some(t) => t,
+                    None => continue,
+                };
+                for d in long.published.get(u).map(|v| v.as_slice()).unwrap_or(&[]) {
+                    let r = &d["range"];
+                    let g = |a: &str, b: &str| r[a][b].as_u64();
+                    if let (Some(sl), Some(sc), Some(el), Some(ec)) = (g("start", "line"), g("start", "character"), g("end", "line"), g("end", "character")) {
+                        stats.ranges_checked += 1;
+                        if let Err(e) = range_inside(&text, (sl, sc, el, ec)) {
+                            return Some(Found {
+                                class: "malformed_range".into(),
+                                sig: "malformed_range:publishDiagnostics:range".into(),
+                                message: format!(
+                                    "after event {} ({}): published diagnostic {:?} for {} has range {:?} which is not inside the document: {}",
+                                    i, ev.kind_name(), d["message"].as_str().unwrap_or(""), u, (sl, sc, el, ec), e
+                                ),
+                                at_event: i,
+                            });
+                        }
+                    }
+                }
+            }
         }
         trace = rng::fnv64_extend(trace, &dg.to_le_bytes());
         stats.log.push(format!(
